@@ -246,8 +246,8 @@ def effects_checks(ctx, data, drv, nexsettings):
             obs = []
             for v in (a, b):
                 s = nexsettings.Settings() if base == "-" else nexsettings.load(base)
-                s[n] = v
                 try:
+                    s[n] = v
                     r = observe_real(s)
                 except Exception as e:
                     r = "crash %r" % (e,)
@@ -496,7 +496,8 @@ def legacy_checks(ctx, drv):
                 real = hx(cap[-1][0]) if cap else "none"
                 hosts.append(real)
                 lines.append("hpp n:%d %s" % (0x1234, "none" if env is None else "s:" + hx(env))); reals.append(real); meta.append(("hpp", "set_environment"))
-                if cap and dict(http.HTTPRequest.parse(cap[-1][1]).headers).get("Host") != cap[-1][0]:
+                mh = re.search(rb"\r\nHost: ([^\r]+)\r\n", cap[-1][1]) if cap else None
+                if cap and (mh is None or mh.group(1).decode() != cap[-1][0]):
                     ctx.violation("host-ignored:hpp", "HppClient Host header differs from the host it connects to", {})
             if len(hosts) == 2 and hosts[0] == hosts[1]:
                 ctx.violation("setter-no-effect:hpp.set_environment", "HppClient.set_environment changes no request", {})
@@ -571,7 +572,22 @@ def documented_fields_check(ctx, data, nexsettings):
 
 
 # ------------------------------------------------------------------------------------------------ run
+def _cap_violations(ctx, per_family=4):
+    """at most `per_family` reports per (kind, client) so that one defect does not flood the output"""
+    orig, seen = ctx.violation, {}
+    def limited(key, what, replay, no_input=False):
+        parts = key.split(":")
+        fam = parts[0] + ":" + (parts[1].split(".")[0] if len(parts) > 1 else "")
+        is_known = any(k.get("status", "open") == "open" and k["property"] == ctx.prop and k["key"] == key for k in ctx._known)
+        if not is_known:
+            seen[fam] = seen.get(fam, 0) + 1
+            if seen[fam] > per_family: return
+        return orig(key, what, replay, no_input)
+    ctx.violation = limited
+
+
 def run(ctx):
+    _cap_violations(ctx)
     logging.disable(logging.CRITICAL)
     ctx.rule = ("inventory: every documented signature of every reference page against the ast/inspect view of the module (exhaustive); "
                 "settings: Settings()/load of the four shipped files, every key x a fixed list of values of every Python type plus random "
